@@ -211,6 +211,9 @@ pub fn lock_events_json(evs: Vec<verif::locks::LockEvent>, dedupe: bool) -> Vec<
 
 static CALLBACKS: Mutex<Vec<Value>> = Mutex::new(Vec::new());
 
+/// while set, `on_reject` does not return (at most 5 s): the processor is parked between two items
+pub static GATE_CLOSED: std::sync::atomic::AtomicBool = std::sync::atomic::AtomicBool::new(false);
+
 pub struct HCallback;
 impl CacheCallback for HCallback {
     type Value = V;
@@ -222,6 +225,11 @@ impl CacheCallback for HCallback {
     }
     fn on_reject(&self, item: Item<V>) {
         CALLBACKS.lock().push(json!({"kind":"reject","val":item.val.map(|v| v.id as i64).unwrap_or(-1),"cost":item.cost}));
+        // free-running runs can hold the processor here (it calls this between items, with no lock held) to line items up behind it
+        let t0 = std::time::Instant::now();
+        while GATE_CLOSED.load(std::sync::atomic::Ordering::SeqCst) && t0.elapsed() < Duration::from_secs(5) {
+            std::thread::sleep(Duration::from_micros(200));
+        }
     }
 }
 
